@@ -44,7 +44,7 @@ func resolverTable(c *core.Ctx, fn *ssa.Function, maxProcs int) (rs rows, runs i
 			}
 			t.field = func(ip *absint.Interp, obj *absint.Tok, name string, typ types.Type) absint.Value {
 				if sl, ok := typ.Underlying().(*types.Slice); ok && types.IsInterface(sl.Elem()) && obj == self {
-					return dispatchList(c, name, procs)
+					return dispatchList(c, t, name, procs)
 				}
 				if b, ok := typ.Underlying().(*types.Basic); ok && b.Kind() == types.Bool && obj == self {
 					return absint.Bool(n > 0)
